@@ -351,6 +351,10 @@ func genC05URL(r *rng, n int, w *bufio.Writer) {
 			default:
 				u = pick(r, poolSchemes) + "://" + pick(r, poolDomains) + "/" + u
 			}
+			if r.chance(1, 8) && strings.Contains(u, "://") {
+				// URL LENGTH: log-scale filler between the host and the member (8 bytes .. beyond the 4 KiB cap)
+				u = nLongURL(r, u, nLog(r, 8, 5000))
+			}
 			if len(u) == 0 || strings.ContainsAny(u, "\n\r") {
 				continue
 			}
